@@ -216,7 +216,8 @@ def Hist.wellFormed (h : Hist) : Bool :=
 
 /-- the schedule `σ` reproduces every observed result -/
 def explains (h : Hist) (σ : List Nat) : Bool :=
-  (List.range h.lens.length).all (fun i => resultOf (run (init h.off h.min h.max h.lens) σ) i == (h.res[i]?).join)
+  let s := run (init h.off h.min h.max h.lens) σ
+  (List.range h.lens.length).all (fun i => resultOf s i == (h.res[i]?).join)
 
 /-- the model admits the observed history: some schedule consistent with the real-time order reproduces it -/
 def admits (h : Hist) : Bool :=
